@@ -19,7 +19,6 @@ def run(ctx):
     ctx.rule("C12.R2", "K2", "every header field consumed by the field loop is counted against limit_request_fields")
     ctx.rule("C12.R3", "K11", "every accumulate-until-delimiter loop has a configuration-derived cap that raises")
     r1(ctx)
-    size_checked(ctx)
     r2(ctx)
     r3(ctx)
 
@@ -84,43 +83,10 @@ def r1(ctx):
             ctx.check("C12.R1", got == {(wf, ws, wb)}, key(fm, "clamp-fields|%s|%s" % (nf, fs)), site(fm, text="limit_request_fields=%s limit_request_field_size=%s" % (nf, fs)),
                       "effective (fields, field size, header buffer cap) = %s, documented: %s" % (sorted(map(str, got)), (wf, ws, wb)), "-> %s" % ((wf, ws, wb),))
     ctx.table("C12.R1 clamps", rows)
-    # ---- field count before consuming
-    fh = ctx.fn(repo.func(MSG + ".Message.parse_headers"))
-    g = fh.cfg
-    outer = _field_loop(fh)
-    pops = [n for c in method_calls(fh, ("pop", "popleft")) if fh.module.enclosing(c, ast.While) is outer for n in nodes_with(fh, c)]
-    ctx.need(pops, "C12.R1: the field loop consumes nothing")
-    cnt = _count_tests(fh)
-    ctx.check("C12.R1", bool(cnt), key(fh, "count-check"), site(fh), "no test of the number of fields against limit_request_fields", "count check present")
-    if cnt:
-        t = cnt[0]
-        for have, lim in ((99, 100), (100, 100), (101, 100), (0, 1), (1, 1)):
-            ex = Explorer(fh, atom_of=lambda e: "COUNT" if _is_count_expr(fh, e) else None)
-            outs = ex.run(t, {"COUNT": have, "self.limit_request_fields": lim}, stop=lambda n: n in pops)
-            got = set("reject" if o.kind == "raise" else "consume" for o in outs)
-            want = "reject" if have >= lim else "consume"
-            ctx.check("C12.R1", got == {want}, key(fh, "count|%s|%s" % (have, lim)), site(fh, t), "with %d fields accepted and limit %d a further field is %s, documented: %s" % (have, lim, sorted(got), want), want)
-        ctx.check("C12.R1", all(g.dominates(t, p, follow_exc=False) for p in pops), key(fh, "count-before-consume"), site(fh, t), "the field count is not checked before the next field is consumed", "checked before consuming")
-    # ---- field size
-    size_tests = [t for t in g.tests() if "limit_request_field_size" in norm(t.ast) and any(isinstance(x, ast.Name) for x in ast.walk(t.ast)) and compare(t.ast) and not const(compare(t.ast)[2], NO) == 0]
-    ctx.check("C12.R1", len(size_tests) >= 2, key(fh, "size-checks"), site(fh), "field size is not checked both for continuation lines and for the complete field", "%d size checks" % len(size_tests))
-    for t in size_tests:
-        hl = [x.id for x in ast.walk(t.ast) if isinstance(x, ast.Name)]
-        ctx.need(hl, "C12.R1: size test variable not recognised")
-        HL = hl[0]
-        for length, lim in ((100, 100), (101, 100), (99, 100), (5000, 0), (1, 0)):
-            ex = Explorer(fh, frozen=[HL])
-            outs = ex.run(t, {HL: length, "self.limit_request_field_size": lim},
-                          stop=lambda n, t=t: not n.always_raises and not (n.kind == "test" and n.stmt is t.stmt))
-            got = set("reject" if o.kind == "raise" else "accept" for o in outs)
-            want = "reject" if (lim > 0 and length > lim) else "accept"
-            ctx.check("C12.R1", got == {want}, key(fh, "size|%s|%s|%s" % (t.text, length, lim)), site(fh, t), "field of %d bytes (incl. CRLF) with limit %d is %s, documented: %s" % (length, lim, sorted(got), want), want)
-        # the measured length includes the CRLF and accumulates continuation lines
-        st = stores_to_name(fh, HL)
-        init = [s for s in st if isinstance(s.ast, ast.Assign)]
-        acc = [s for s in st if isinstance(s.ast, ast.AugAssign) and isinstance(s.ast.op, ast.Add)]
-        ok_init = bool(init) and all("len(" in norm(s.ast.value) and ("len('\\r\\n')" in norm(s.ast.value) or "+ 2" in norm(s.ast.value)) for s in init)
-        ctx.check("C12.R1", ok_init and bool(acc), key(fh, "size-measure|" + HL), site(fh), "the field length does not count the line plus CRLF and every continuation line", "len(line)+2, += per continuation")
+    # ---- field count and field size: evaluated on header blocks around the limits (fields that are dropped by the
+    # underscore policy count and are measured too; continuation lines add to the field's size; 0 = unlimited size)
+    from .c01 import headers_table
+    headers_table(ctx, "C12.R1", "limits")
 
 
 def size_checked(ctx, rid="C12.R1"):
